@@ -256,4 +256,77 @@ def unbindSlot : Inst → Name → Inst
   | [], _ => []
   | (y, w) :: r, x => (if y = x then (y, none) else (y, w)) :: unbindSlot r x
 
+/-! ## class objects and instances that exist across a redefinition
+
+  slip's documented behaviour (defclass): "If the named class already exists it is over-written but
+  existing objects continue to reference the original class." A `defclass` of a name creates a new
+  class *object*; the object it replaces is no longer registered, is never merged again and keeps
+  the precedence list it had. Subclasses are not replaced: their objects are re-merged in place, so
+  their existing instances follow the new precedence list. An instance keeps its slots.
+
+  A class object is identified by its name and *generation* (how many forms for that name had been
+  evaluated when it was created). -/
+
+/-- a superseded class object, frozen -/
+structure Dead where
+  name : Name
+  gen : Nat
+  inh : Option (List Name)
+deriving Repr
+
+structure World where
+  st : State
+  gens : Name → Nat
+  dead : List Dead
+
+def World.empty : World := { st := [], gens := fun _ => 0, dead := [] }
+
+/-- `(defclass c …)` at the level of class objects -/
+def defclassW (w : World) (c : Name) (d : ClassDef) : World :=
+  { st := defclass w.st c d,
+    gens := fun k => if k = c then w.gens c + 1 else w.gens k,
+    dead := match find w.st c with
+      | some e => { name := c, gen := w.gens c, inh := e.inh } :: w.dead
+      | none => w.dead }
+
+def runW (h : List (Name × ClassDef)) : World :=
+  h.foldl (fun w p => defclassW w p.1 p.2) World.empty
+
+/-- an instance: the class object it references and its slots -/
+structure Obj where
+  cls : Name
+  gen : Nat
+  slots : Inst
+deriving Repr
+
+/-- make-instance: the new instance references the class object registered now -/
+def makeObj (w : World) (c : Name) (args : List (Name × Val)) : Except Err Obj :=
+  match makeInstance w.st c args with
+  | .ok i => .ok { cls := c, gen := w.gens c, slots := i }
+  | .error e => .error e
+
+def deadInh : List Dead → Name → Nat → Option (Option (List Name))
+  | [], _, _ => none
+  | d :: ds, c, g => if d.name = c ∧ d.gen = g then some d.inh else deadInh ds c g
+
+/-- `(eq (class-of o) (find-class name))`: the instance's class object is the registered one -/
+def objIsCurrent (w : World) (o : Obj) : Bool := o.gen = w.gens o.cls
+
+/-- the inheritance list of the instance's own class object -/
+def objInh (w : World) (o : Obj) : Option (List Name) :=
+  if o.gen = w.gens o.cls then inhOf w.st o.cls
+  else match deadInh w.dead o.cls o.gen with
+    | some i => i
+    | none => none
+
+/-- `(class-precedence (class-of o))` = `o.Hierarchy()` -/
+def objPrec (w : World) (o : Obj) : Option (List Name) := (objInh w o).map (fun l => o.cls :: l)
+
+/-- `(typep o k)` -/
+def objTypep (w : World) (o : Obj) (k : Name) : Option Bool := (objPrec w o).map (fun p => isA p k)
+
+/-- the methods applicable to `o`, most specific first -/
+def objApplicable (w : World) (o : Obj) (methods : List Name) : Option (List Name) :=
+  (objPrec w o).map (fun p => p.filter (fun k => methods.contains k))
+
 end SlipVerif.Clos
